@@ -253,7 +253,7 @@ def run(ck: Check):
     ck.outside += ['streams of more than 3 word tokens', 'quick: words other than one per role (oracle QUICK_WORDS); thorough: words other than one per behaviour class of the core alphabet', 'thresholds other than the listed concrete ones',
                    'tokens that are neither words, whitespace nor punctuation (bare digit strings): not classified by the statement',
                    'quick: Spanish fraction words (doceavo)']
-    ck.assumptions.append('linking words are those for which the interpreter\'s is_linking answers true on the token text')
+    ck.assumptions.append('linking words are those for which the interpreter\'s is_linking answers true on the lower-cased token text, and the language\'s conjunction; 1/x values (Spanish fractions) are compared with the threshold through x exactly')
     return ('For every stream of k words (solver-chosen words and separators) find_numbers is executed from MIR at threshold 0 '
             'and at each listed threshold; z3 decides that the occurrences at the threshold are a sub-sequence of those at 0 and '
             'that a number recognised at 0 is kept exactly when it is not small (single digit or ordinal, value < t) or has a '
